@@ -801,7 +801,46 @@ def r15_method_set_reaches_the_compiler_as_written(ctx):
         ctx.ob('C19.R15', ob.key, ob.ok, ob.loc, ob.detail, ob.nontrivial)
 
 
+def r16_reader_goes_as_deep_as_the_writer(ctx):
+    ctx.rule('C19.R16', 'P3/P7 writer/reader agreement on depth: RON counts nesting differently when writing and when reading, so a reader with the default '
+             'recursion limit refuses files the writer produced (a blueprint nested 16 levels deep). Every RON read of `pavex_bp_schema::Blueprint` '
+             '(Blueprint::load in pavex, the `generate` command of pavexc) goes through `ron::Options` whose provenance contains '
+             '`without_recursion_limit()` and no `with_recursion_limit(..)`: the writer\'s own limit is what bounds the file.')
+    fb = ctx.fb
+    readers = []
+    for crate, ctype in (('pavex', 'Rlib'), ('pavexc', 'Executable'), ('pavexc', 'Rlib'), ('pavex_cli', 'Executable'), ('pavex', 'Executable')):
+        try:
+            bodies = fb.bodies(crate, ctype)
+        except Exception:
+            continue
+        for b in bodies:
+            if b.is_promoted:
+                continue
+            for bb, t in b.calls():
+                c = callee(t) or ''
+                if not (c.startswith('ron::de::from_') or c.startswith('ron::options::Options::from_')):
+                    continue
+                if 'pavex_bp_schema::Blueprint' not in ' '.join(t.get('ga', [])):
+                    continue
+                readers.append((crate, b, bb, t, c))
+    ctx.floor('C19.R16', 'RON readers of the blueprint schema', len(readers), 2)
+    for crate, b, bb, t, c in readers:
+        ok, why = False, '%s uses the default recursion limit' % c
+        if c.startswith('ron::options::Options::from_'):
+            pl = op_place(t['args'][0]) if t['args'] else None
+            calls = set()
+            if pl is not None:
+                sl, _ = backward_slice(b, pl['l'], Defs(b))
+                calls = {x[0] for x in slice_calls(sl)}
+            lifted = any(x.endswith('Options::without_recursion_limit') for x in calls)
+            limited = any(x.endswith('Options::with_recursion_limit') for x in calls)
+            ok = lifted and not limited
+            why = 'options built by %s' % sorted(x.split('::')[-1] for x in calls if x.startswith('ron::'))
+        ctx.ob('C19.R16', 'reader-unbounded|%s|%s' % (crate, b.nroot.split('::')[-1]), ok, b.loc(bb, t), why)
+
+
 def check(ctx):
+    r16_reader_goes_as_deep_as_the_writer(ctx)
     r15_method_set_reaches_the_compiler_as_written(ctx)
     r14_an_explicit_call_is_recorded(ctx)
     r13_reader_hands_on_what_it_parsed(ctx)
